@@ -27,7 +27,7 @@ TECHNIQUE = "generated step scripts on real transports; client trace + server in
 LEVEL_TEXT = (
     "Exploration: all 31 producer step-script shapes up to length 6 x every take/close/cancel point, and a grid of "
     "exchange scripts x input counts x 7 input-schema perturbations x positions, executed on the real client and server "
-    "over pipe, unix socketpair and in-process HTTP (4 cap settings); randomised row counts, padding, metadata, logs, "
+    "over pipe, unix socketpair, shm-pipe (pointer batches) and in-process HTTP (4 cap settings); randomised row counts, padding, metadata, logs, "
     "header and column sets. Held means no execution among those listed in the evidence contradicted the lifecycle model."
 )
 LEVEL_NOTE = "scripted implementation (lib/svcgen) and pyarrow trusted; HTTP driven in-process through the WSGI callable"
